@@ -101,6 +101,12 @@ theorem firstBlock_congr {db : Db} {h : Nat} {p q : Blk → Bool}
   intro b hb
   exact hpq b (by have := List.mem_range.mp hb; omega)
 
+theorem unmigrated_noOld_empty' {o : Content} {k : Blk} (hw : o.1.length = o.2.length)
+    (hu : Unmigrated o k) (hno : k.otx = []) : o = ([], []) := by
+  have h1 : o.1 = [] := by rw [← hu.2.1]; exact hno
+  have h2 : o.2 = [] := by rw [h1] at hw; exact List.length_eq_zero_iff.mp hw.symm
+  exact Prod.ext h1 h2
+
 /-- Every block up to the chain height is either still in the previous layout or migrated, with
 its original content: no block is lost, duplicated or altered. Every crash image of the repaired
 migration satisfies this. -/
@@ -321,7 +327,110 @@ theorem iteration_inv {cfg : Cfg} (hc : cfg.overwriteMigrated = false) {orig : O
     cases hf : firstBlock db h (fun k => !k.otx.isEmpty) with
     | none => exact ⟨hi, fun _ _ => rfl⟩
     | some t => exact ⟨hi, fun _ _ => rfl⟩
+  | passSkip emit sel =>
+    simp only [getFirst_inv hw hi]
+    cases hf : firstBlock db h (fun k => !k.otx.isEmpty) with
+    | none =>
+      simp only [Option.map_none]
+      split
+      · exact ⟨hi, fun _ _ => rfl⟩
+      · split
+        · rename_i db' hdb'
+          exact hbf (fun b hb => by simpa using firstBlock_none hf b hb) db' hdb'
+        · exact ⟨hi, fun _ _ => rfl⟩
+    | some t =>
+      simp only [Option.map_some, passFails_fixed hc hw hi, Bool.false_eq_true, if_false]
+      split
+      · exact ⟨applyPass_inv hc hw hi _ _, by intro b hb; simp only [Option.map_some]; exact applyPass_frame _ _ _ _ _ b hb⟩
+      · exact ⟨applyPass_inv hc hw hi _ _, by intro b hb; simp only [Option.map_some]; exact applyPass_frame _ _ _ _ _ b hb⟩
+  | crashClear =>
+    simp only [getFirst_inv hw hi]
+    cases hf : firstBlock db h (fun k => !k.otx.isEmpty) with
+    | none =>
+      simp only [Option.map_none]
+      split
+      · exact ⟨hi, fun _ _ => rfl⟩
+      · split
+        · rename_i db' hdb'
+          exact hbf (fun b hb => by simpa using firstBlock_none hf b hb) db' hdb'
+        · exact ⟨hi, fun _ _ => rfl⟩
+    | some t => exact ⟨hi, fun _ _ => rfl⟩
+  | failClear =>
+    simp only [getFirst_inv hw hi]
+    cases hf : firstBlock db h (fun k => !k.otx.isEmpty) with
+    | none =>
+      simp only [Option.map_none]
+      split
+      · exact ⟨hi, fun _ _ => rfl⟩
+      · split
+        · rename_i db' hdb'
+          exact hbf (fun b hb => by simpa using firstBlock_none hf b hb) db' hdb'
+        · exact ⟨hi, fun _ _ => rfl⟩
+    | some t => exact ⟨hi, fun _ _ => rfl⟩
 
+
+theorem rangeHasOld_false {db : Db} {f h i b : Nat} (hr : rangeHasOld db f h i = false) (hb : b ≤ h) (hf : f ≤ b)
+    (hi : (b - f) / batchSize = i) : (db.blk b).otx = [] ∧ (db.blk b).orc = [] := by
+  unfold rangeHasOld at hr
+  rw [List.any_eq_false] at hr
+  have := hr b (List.mem_range.mpr (by omega))
+  simp only [hf, hi, decide_true, Bool.true_and, Bool.or_eq_true, Bool.not_eq_true', not_or, Bool.not_eq_false] at this
+  exact ⟨List.isEmpty_iff.mp this.1, List.isEmpty_iff.mp this.2⟩
+
+/-- A pass with elided batches (`passSkip`) differs from the pass of the current committer (`pass`) only on
+blocks WITHOUT transactions, and there only in that the block is left as it was (its empty entry is not
+written yet); the return class is the same. So eliding never concerns a block that holds data. -/
+theorem passSkip_vs_pass {cfg : Cfg} (hc : cfg.overwriteMigrated = false) {orig : Orig} {h : Nat} {db : Db}
+    (hw : WFOrig orig) (hi : Inv orig h db) (emit : Option Nat) (sel : List Bool) :
+    (iteration cfg db h (.passSkip emit sel)).2 = (iteration cfg db h (.pass emit)).2 ∧
+    ∀ b, (iteration cfg db h (.passSkip emit sel)).1.blk b = (iteration cfg db h (.pass emit)).1.blk b ∨
+      (b ≤ h ∧ orig b = ([], []) ∧ (iteration cfg db h (.passSkip emit sel)).1.blk b = db.blk b) := by
+  unfold iteration
+  simp only [getFirst_inv hw hi]
+  cases hf : firstBlock db h (fun k => !k.otx.isEmpty) with
+  | none => exact ⟨rfl, fun b => .inl rfl⟩
+  | some t =>
+    simp only [Option.map_some, passFails_fixed hc hw hi, Bool.false_eq_true, if_false]
+    refine ⟨by split <;> rfl, fun b => ?_⟩
+    have key : (applyPass cfg db (t - t % batchSize) h (fun i =>
+          decide (i < min (emit.getD (numRanges (t - t % batchSize) h)) (numRanges (t - t % batchSize) h)) &&
+            (selOf sel i || rangeHasOld db (t - t % batchSize) h i))).blk b =
+        (applyPass cfg db (t - t % batchSize) h (fun i =>
+          decide (i < min (emit.getD (numRanges (t - t % batchSize) h)) (numRanges (t - t % batchSize) h)))).blk b ∨
+        (b ≤ h ∧ orig b = ([], []) ∧ (applyPass cfg db (t - t % batchSize) h (fun i =>
+          decide (i < min (emit.getD (numRanges (t - t % batchSize) h)) (numRanges (t - t % batchSize) h)) &&
+            (selOf sel i || rangeHasOld db (t - t % batchSize) h i))).blk b = db.blk b) := by
+      simp only [applyPass]
+      by_cases hfb : t - t % batchSize ≤ b ∧ b ≤ h
+      · by_cases he : (b - (t - t % batchSize)) / batchSize <
+            min (emit.getD (numRanges (t - t % batchSize) h)) (numRanges (t - t % batchSize) h)
+        · by_cases hk : (selOf sel ((b - (t - t % batchSize)) / batchSize) ||
+              rangeHasOld db (t - t % batchSize) h ((b - (t - t % batchSize)) / batchSize)) = true
+          · left; simp only [hfb.1, hfb.2, he, hk, decide_true, Bool.and_self, and_self, if_true]
+          · have hk' : (selOf sel ((b - (t - t % batchSize)) / batchSize) ||
+                rangeHasOld db (t - t % batchSize) h ((b - (t - t % batchSize)) / batchSize)) = false := by simpa using hk
+            have hro := (Bool.or_eq_false_iff.mp hk').2
+            obtain ⟨ho1, ho2⟩ := rangeHasOld_false hro hfb.2 hfb.1 rfl
+            rcases hi.2 b hfb.2 with hu | hm
+            · right
+              refine ⟨hfb.2, unmigrated_noOld_empty' (hw b) hu ho1, ?_⟩
+              simp only [hfb.1, hfb.2, he, hk', decide_true, Bool.and_false, Bool.false_eq_true, and_false, if_false]
+            · left
+              simp only [hfb.1, hfb.2, he, hk', decide_true, Bool.and_false, Bool.false_eq_true, and_false, if_false,
+                and_self, if_true]
+              rw [ingest_migrated_fixed cfg hc _ _ hm]
+        · left; simp only [he, decide_false, Bool.false_and, Bool.false_eq_true, and_false, if_false]
+      · left
+        have h1 : ¬ (t - t % batchSize ≤ b ∧ b ≤ h ∧ (decide ((b - (t - t % batchSize)) / batchSize <
+            min (emit.getD (numRanges (t - t % batchSize) h)) (numRanges (t - t % batchSize) h)) &&
+            (selOf sel ((b - (t - t % batchSize)) / batchSize) ||
+              rangeHasOld db (t - t % batchSize) h ((b - (t - t % batchSize)) / batchSize))) = true) :=
+          fun hx => hfb ⟨hx.1, hx.2.1⟩
+        have h2 : ¬ (t - t % batchSize ≤ b ∧ b ≤ h ∧ decide ((b - (t - t % batchSize)) / batchSize <
+            min (emit.getD (numRanges (t - t % batchSize) h)) (numRanges (t - t % batchSize) h)) = true) :=
+          fun hx => hfb ⟨hx.1, hx.2.1⟩
+        simp only [h1, h2, if_false]
+    split <;> exact key
 
 theorem migrateLoop_inv {cfg : Cfg} (hc : cfg.overwriteMigrated = false) {orig : Orig} {h : Nat}
     (hw : WFOrig orig) : ∀ (fuel : Nat) (db : Db) (steps : List Step), Inv orig h db →
@@ -393,6 +502,31 @@ theorem iteration_done {cfg : Cfg} (hc : cfg.overwriteMigrated = false) (hs : cf
   | crashFinal =>
     simp only [getFirst_inv hw hi] at hd
     cases hf : firstBlock db h (fun k => !k.otx.isEmpty) <;> simp [hf] at hd
+  | passSkip emit sel =>
+    simp only [getFirst_inv hw hi] at hd ⊢
+    cases hf : firstBlock db h (fun k => !k.otx.isEmpty) with
+    | none =>
+      simp only [hf, Option.map_none, hs, Bool.false_eq_true, if_false] at hd ⊢
+      obtain ⟨db'', h1, h2, h3, _⟩ := backfill_inv hw hi (fun b hb => by simpa using firstBlock_none hf b hb)
+      rw [h1]
+      exact ⟨h2, h3⟩
+    | some t =>
+      simp only [hf, Option.map_some, passFails_fixed hc hw hi, Bool.false_eq_true, if_false] at hd
+      split at hd <;> simp at hd
+  | crashClear =>
+    simp only [getFirst_inv hw hi] at hd
+    cases hf : firstBlock db h (fun k => !k.otx.isEmpty) with
+    | none =>
+      simp only [hf, Option.map_none, hs, Bool.false_eq_true, if_false] at hd
+      split at hd <;> simp at hd
+    | some t => simp [hf] at hd
+  | failClear =>
+    simp only [getFirst_inv hw hi] at hd
+    cases hf : firstBlock db h (fun k => !k.otx.isEmpty) with
+    | none =>
+      simp only [hf, Option.map_none, hs, Bool.false_eq_true, if_false] at hd
+      split at hd <;> simp at hd
+    | some t => simp [hf] at hd
 
 theorem migrateLoop_done {cfg : Cfg} (hc : cfg.overwriteMigrated = false) (hs : cfg.skipUnstoredEmpty = false)
     {orig : Orig} {h : Nat} (hw : WFOrig orig) : ∀ (fuel : Nat) (db : Db) (steps : List Step), Inv orig h db →
@@ -504,6 +638,91 @@ theorem migrate_uninterrupted {cfg : Cfg} (hc : cfg.overwriteMigrated = false) (
       cases this
 
 
+/-- `(shouldRerun, nil)` comes out of a loop iteration only when the environment's step is a cancellation. -/
+theorem iteration_rerun_cancels (cfg : Cfg) (db : Db) (h : Nat) (st : Step)
+    (hr : (iteration cfg db h st).2 = some .rerun) : st.cancels = true := by
+  unfold iteration at hr
+  cases st with
+  | cancelHead => rfl
+  | pass emit =>
+    cases emit with
+    | some k => rfl
+    | none =>
+      exfalso
+      simp only [Option.getD_none, Nat.min_self, Nat.lt_irrefl, if_false] at hr
+      repeat' split at hr
+      all_goals simp at hr
+  | passSkip emit sel =>
+    cases emit with
+    | some k => rfl
+    | none =>
+      exfalso
+      simp only [Option.getD_none, Nat.min_self, Nat.lt_irrefl, if_false] at hr
+      repeat' split at hr
+      all_goals simp at hr
+  | crash emit sel =>
+    exfalso; simp only at hr
+    repeat' split at hr
+    all_goals simp at hr
+  | writeFail emit sel =>
+    exfalso; simp only at hr
+    repeat' split at hr
+    all_goals simp at hr
+  | ingestError emit sel partials =>
+    exfalso; simp only at hr
+    repeat' split at hr
+    all_goals simp at hr
+  | crashFinal =>
+    exfalso; simp only at hr
+    repeat' split at hr
+    all_goals simp at hr
+  | crashClear =>
+    exfalso; simp only at hr
+    repeat' split at hr
+    all_goals simp at hr
+  | failClear =>
+    exfalso; simp only at hr
+    repeat' split at hr
+    all_goals simp at hr
+
+theorem migrateLoop_rerun_cancels (cfg : Cfg) (h : Nat) : ∀ (fuel : Nat) (db : Db) (steps : List Step),
+    (migrateLoop cfg h fuel db steps).2 = .rerun → ∃ st ∈ steps, st.cancels = true := by
+  intro fuel
+  induction fuel with
+  | zero => intro db steps hr; simp [migrateLoop] at hr
+  | succ n ih =>
+    intro db steps hr
+    simp only [migrateLoop] at hr
+    cases steps with
+    | nil =>
+      simp only at hr
+      split at hr
+      · rename_i db' r heq
+        simp only at hr
+        subst hr
+        have := iteration_rerun_cancels cfg db h (.pass none) (by rw [heq])
+        cases this
+      · obtain ⟨st, hst, _⟩ := ih _ [] hr
+        cases hst
+    | cons s rest =>
+      simp only at hr
+      split at hr
+      · rename_i db' r heq
+        simp only at hr
+        subst hr
+        exact ⟨s, List.mem_cons_self, iteration_rerun_cancels cfg db h s (by rw [heq])⟩
+      · obtain ⟨st, hst, hc⟩ := ih _ rest hr
+        exact ⟨st, List.mem_cons_of_mem _ hst, hc⟩
+
+/-- `Migrate` of block-transactions returns `(shouldRerun, nil)` only in a call during which the context
+was cancelled (the model's step list contains a cancellation). -/
+theorem migrate_rerun_cancels (cfg : Cfg) (db : Db) (steps : List Step)
+    (hr : (migrate cfg db steps).2 = .rerun) : ∃ st ∈ steps, st.cancels = true := by
+  unfold migrate at hr
+  split at hr
+  · cases hr
+  · exact migrateLoop_rerun_cancels cfg _ 3 db steps hr
+
 /-- A sequence of `Migrate` calls, each with its own interruption pattern (cancelled, crashed, …),
 every one starting from the database the previous one left. -/
 def attempts (cfg : Cfg) : Db → List (List Step) → Db
@@ -604,6 +823,9 @@ theorem iteration_pinv {cfg : Cfg} (hs : cfg.skipUnstoredEmpty = true) {orig : O
   | writeFail _ _ => cases hg
   | ingestError _ _ _ => cases hg
   | crashFinal => cases hg
+  | passSkip _ _ => cases hg
+  | crashClear => cases hg
+  | failClear => cases hg
   | pass emit =>
     simp only [getFirst_inv hw hi]
     cases hf : firstBlock db h (fun k => !k.otx.isEmpty) with
@@ -804,6 +1026,21 @@ theorem iteration_done_any {cfg : Cfg} (hc : cfg.overwriteMigrated = false)
     | crashFinal =>
       simp only [getFirst_inv hw hi] at hd
       cases hf : firstBlock db h (fun k => !k.otx.isEmpty) <;> simp [hf] at hd
+    | passSkip emit sel =>
+      simp only [getFirst_inv hw hi] at hd ⊢
+      cases hf : firstBlock db h (fun k => !k.otx.isEmpty) with
+      | none =>
+        simp only [Option.map_none, hs, if_true]
+        exact noOld_nonEmptyMigrated hw hi (fun b hb => firstBlock_none hf b hb)
+      | some t =>
+        simp only [hf, Option.map_some, passFails_fixed hc hw hi, Bool.false_eq_true, if_false] at hd
+        split at hd <;> simp at hd
+    | crashClear =>
+      simp only [getFirst_inv hw hi] at hd
+      cases hf : firstBlock db h (fun k => !k.otx.isEmpty) <;> simp [hf, hs] at hd
+    | failClear =>
+      simp only [getFirst_inv hw hi] at hd
+      cases hf : firstBlock db h (fun k => !k.otx.isEmpty) <;> simp [hf, hs] at hd
 
 theorem migrateLoop_done_any {cfg : Cfg} (hc : cfg.overwriteMigrated = false)
     {orig : Orig} {h : Nat} (hw : WFOrig orig) : ∀ (fuel : Nat) (db : Db) (steps : List Step), Inv orig h db →
